@@ -116,8 +116,42 @@ func C09(c *run.Ctx) int {
 		}
 		return id, o
 	})
+	// typed access grid: every matrix shape (and a vector / array / nested array of each) held BY VALUE - as a parameter, a
+	// let, a call result, a struct member of a by-value struct - and indexed with a run-time index, a constant index and
+	// both in sequence; the recorded expression types are compared with the independent typifier (R5) and with the
+	// declared result type of the enclosing helper (R9). Non-square shapes distinguish rows from columns.
+	type accessCase struct{ id, src string }
+	var grid []accessCase
+	for cols := 2; cols <= 4; cols++ {
+		for rows := 2; rows <= 4; rows++ {
+			mt := fmt.Sprintf("mat%dx%d<f32>", cols, rows)
+			vt := fmt.Sprintf("vec%d<f32>", rows)
+			zero := mt + "()"
+			holders := []struct{ name, decl, expr string }{
+				{"param", "fn colp(m: " + mt + ", i: u32) -> " + vt + " { return m[i]; }\nfn elp(m: " + mt + ", i: u32, j: u32) -> f32 { return m[i][j]; }\nfn mixp(m: " + mt + ", i: u32) -> f32 { return m[1][i] + m[i][1] + m[i].y; }\n", "colp(" + zero + ", k).x + elp(" + zero + ", k, k) + mixp(" + zero + ", k)"},
+				{"let", "fn coll(i: u32) -> " + vt + " { let m = " + zero + "; return m[i]; }\nfn ell(i: u32) -> f32 { let m = " + zero + "; let c = m[i]; return c[i] + m[i][0]; }\n", "coll(k).y + ell(k)"},
+				{"call-result", "fn mk() -> " + mt + " { return " + zero + "; }\nfn colr(i: u32) -> " + vt + " { return mk()[i]; }\n", "colr(k).x + mk()[k][1]"},
+				{"struct-member", "struct H { pad: f32, m: " + mt + " }\nfn cols(h: H, i: u32) -> " + vt + " { return h.m[i]; }\n", "cols(H(), k).y"},
+				{"array-of", "fn cola(a: array<" + mt + ", 2>, i: u32) -> " + vt + " { return a[i][i]; }\nfn ma(a: array<" + mt + ", 2>, i: u32) -> " + mt + " { return a[i]; }\n", "cola(array<" + mt + ", 2>(), k).x + ma(array<" + mt + ", 2>(), k)[1].y"},
+				{"variable", "var<private> pm: " + mt + ";\nfn colv(i: u32) -> " + vt + " { return pm[i]; }\nfn colf(i: u32) -> " + vt + " { var m = " + zero + "; m[i] = " + vt + "(1.0); return m[i]; }\n", "colv(k).x + colf(k).y"},
+			}
+			for _, h := range holders {
+				src := "@group(0) @binding(0) var<storage, read_write> o: array<f32, 8>;\n" + h.decl +
+					"@compute @workgroup_size(1) fn main(@builtin(local_invocation_index) k: u32) {\n    o[0] = " + h.expr + ";\n}\n"
+				grid = append(grid, accessCase{fmt.Sprintf("access-grid:%s:%s", mt, h.name), src})
+			}
+		}
+	}
+	c.Each(len(grid), func(i int) (string, run.Outcome) {
+		g := grid[i]
+		o := c09Eval(c, g.id, g.src, map[string]int{"template:access-grid": 1, g.id: 1}, false)
+		if o.V == run.Violated {
+			o.Reason = g.id + ": " + o.Reason
+		}
+		return g.id, o
+	})
 	return c.Finish("every module returned by LowerWithSource for generated programs and the corpus is checked by an independent strict IR validator (rules R1-R18: handle ranges, backward references, no abstract types, type uniqueness, recorded expression types vs an independent typifier, emit coverage and ordering, result binding, returns, store/call typing, control-flow placement, access typing, entry-point bindings, layout, plus naga's own ir.Validate); "+
-		"plus modules declaring 6-16 fixed-size array variables (lengths 1-40, scalar / atomic / vector elements) behind a random prefix of other types; counters give per-rule evaluations and expression types compared by kind; distinct = distinct (feature set | corpus shader)",
+		"plus modules declaring 6-16 fixed-size array variables (lengths 1-40, scalar / atomic / vector elements) behind a random prefix of other types; plus a typed access grid (9 matrix shapes x 6 ways of holding the matrix by value or in a variable, indexed by run-time and constant indices); counters give per-rule evaluations and expression types compared by kind; distinct = distinct (feature set | corpus shader)",
 		[]string{"irstrict's typifier is a second implementation of upstream naga's proc::typifier rules; it shares no code with ir.ResolveExpressionType"})
 }
 
